@@ -46,7 +46,9 @@ func checkGenericProtocol(r *Run) {
 	if visitorObj == nil || ctorObj == nil {
 		r.Fatal("walk.Generic: visitor / cursor constructor parameters not identified")
 	}
-	g := cfg.New(fd.Body, func(call *ast.CallExpr) bool {
+	// repeated steps factored into a local closure are analysed where they are called
+	body := inlineErrorClosures(info, fd.Body)
+	g := cfg.New(body, func(call *ast.CallExpr) bool {
 		if id, ok := call.Fun.(*ast.Ident); ok && id.Name == "panic" {
 			return false
 		}
@@ -84,7 +86,7 @@ func checkGenericProtocol(r *Run) {
 	}
 	// which objects hold the result of visitor.Error()
 	errVars := map[types.Object]bool{}
-	ast.Inspect(fd.Body, func(n ast.Node) bool {
+	ast.Inspect(body, func(n ast.Node) bool {
 		if as, ok := n.(*ast.AssignStmt); ok && len(as.Lhs) == 1 && len(as.Rhs) == 1 {
 			if name, _ := visitorCall(as.Rhs[0]); name == "Error" {
 				if id, ok := as.Lhs[0].(*ast.Ident); ok {
@@ -368,40 +370,6 @@ func checkPopsAfterExit(r *Run, fd *ast.FuncDecl, g *cfg.CFG, visitorCall func(a
 				}
 			}
 			back(b, i)
-			// the consume flag is cleared between the Exit callback and the pop: Exit may call Consume(), and a flag that
-			// survives the pop is read by the parent's `else if visitor.WasConsumed()` and makes it skip its remaining children
-			cleared := true
-			seen2 := map[*cfg.Block]bool{}
-			var back2 func(bb *cfg.Block, upto int)
-			back2 = func(bb *cfg.Block, upto int) {
-				if !cleared {
-					return
-				}
-				for j := upto - 1; j >= 0; j-- {
-					if nm, c := visitorCall(bb.Nodes[j]); c != nil {
-						if nm == "WasConsumed" {
-							return
-						}
-						if nm == "Exit" || nm == "Enter" || nm == "Visit" {
-							cleared = false
-							return
-						}
-					}
-				}
-				if seen2[bb] {
-					return
-				}
-				seen2[bb] = true
-				for _, p := range preds[bb] {
-					back2(p, len(p.Nodes))
-				}
-			}
-			back2(b, i)
-			if cleared {
-				r.Pass("C11-generic-nesting", "Generic:pop#"+itoa(npops)+":consume-cleared", n.Pos(), "visitor.WasConsumed() is read between the last callback and this pop, so a consume request made in Exit cannot leak to the parent")
-			} else {
-				r.Fail("C11-generic-nesting", "Generic:pop#"+itoa(npops)+":consume-cleared", n.Pos(), "a path reaches this pop from a visitor callback without reading visitor.WasConsumed(): a Consume() made in that callback survives the pop, the parent cursor sees it in its own WasConsumed() test, is exited at once and its remaining children are never visited")
-			}
 			construct := "Generic:pop#" + itoa(npops)
 			if ok {
 				r.Pass("C11-generic-nesting", construct, n.Pos(), "every path to this pop passes visitor.Exit of the popped node")
@@ -412,6 +380,51 @@ func checkPopsAfterExit(r *Run, fd *ast.FuncDecl, g *cfg.CFG, visitorCall func(a
 	}
 	if npops == 0 {
 		r.Undecide("C11-generic: no stack pop recognised in walk.Generic")
+	}
+	// the consume flag after Exit: Exit may call Consume(). On every path onwards from an Exit callback the first read
+	// of visitor.WasConsumed() must be one that throws the value away (a statement of its own). If the first read is a
+	// test, the flag set in the child's Exit is taken for the parent's: the parent is exited at once and its remaining
+	// children are never visited.
+	nexits := 0
+	for _, b := range g.Blocks {
+		for i, n := range b.Nodes {
+			nm, c := visitorCall(n)
+			if c == nil || nm != "Exit" {
+				continue
+			}
+			nexits++
+			leak := token.NoPos
+			seen := map[*cfg.Block]bool{}
+			var fwd func(bb *cfg.Block, from int)
+			fwd = func(bb *cfg.Block, from int) {
+				if leak != token.NoPos {
+					return
+				}
+				for j := from; j < len(bb.Nodes); j++ {
+					if nm2, c2 := visitorCall(bb.Nodes[j]); c2 != nil && nm2 == "WasConsumed" {
+						if es, isStmt := bb.Nodes[j].(*ast.ExprStmt); isStmt && es.X == ast.Expr(c2) {
+							return // cleared
+						}
+						leak = c2.Pos()
+						return
+					}
+				}
+				if seen[bb] {
+					return
+				}
+				seen[bb] = true
+				for _, s := range bb.Succs {
+					fwd(s, 0)
+				}
+			}
+			fwd(b, i+1)
+			construct := "Generic:exit#" + itoa(nexits) + ":consume-cleared"
+			if leak == token.NoPos {
+				r.Pass("C11-generic-nesting", construct, n.Pos(), "after this Exit the consume flag is cleared before anything tests it")
+			} else {
+				r.Fail("C11-generic-nesting", construct, leak, "a path leads from this visitor.Exit (%s) to a test of visitor.WasConsumed() without the flag being cleared in between: a Consume() made in a node's Exit is taken for its parent's, the parent is exited at once and its remaining children are never visited", r.Fset.Position(n.Pos()))
+			}
+		}
 	}
 }
 
